@@ -102,19 +102,26 @@ ResolveAtom(name) ==
             [idx |-> 0, ok |-> TRUE, ex |-> r.ex /\ pv.ex /\ ~IsBad(XMul(r.s, pv.v)), off |-> r.off, s |-> XMul(r.s, pv.v), tag |-> r.tag, o |-> r.o, dim |-> r.dim, atomic |-> TRUE, str |-> name]
 
 \* a unit spec is [a, ea, b, eb]: atom a (ea = 1, b = "") or the compound a**ea * b**eb
-AtomSpec(n) == [a |-> n, ea |-> 1, b |-> "", eb |-> 0]
+AtomSpec(n) == [a |-> n, ea |-> 1, b |-> "", eb |-> 0, coef |-> 1]
 DimPow(d, n) == <<d[1]*n, d[2]*n, d[3]*n, d[4]*n, d[5]*n, d[6]*n, d[7]*n, d[8]*n, d[9]*n>>
 DimMul(d, e) == <<d[1]+e[1], d[2]+e[2], d[3]+e[3], d[4]+e[4], d[5]+e[5], d[6]+e[6], d[7]+e[7], d[8]+e[8], d[9]+e[9]>>
 \* Unit.__mul__/__pow__: scales multiply, dimensions multiply; an operand with an offset refuses (never generated here)
+\* the dimensionless unit 1 (second factor of a single-atom power / of a coefficient unit)
+UnitOne == [NoUnit EXCEPT !.ok = TRUE, !.ex = TRUE, !.dim = <<0, 0, 0, 0, 0, 0, 0, 0, 0>>]
+\* a unit spec is coef * a**ea * b**eb (b = "" : no second atom).  coef = 1, ea = 1, b = "" is the atom itself;
+\* anything else goes through Unit.__mul__/__pow__ (scales multiply, dimensions add; an offset operand refuses)
+\* and is not atomic: "1000*m", "s**-1", "N*m" are spellings with the scale of km, Hz, J.
 ResolveSpec(u) ==
   LET a == ResolveAtom(u.a) IN
-  IF u.b = "" THEN a
-  ELSE LET b == ResolveAtom(u.b) IN
+  IF u.b = "" /\ u.ea = 1 /\ u.coef = 1 THEN a
+  ELSE LET b == IF u.b = "" THEN UnitOne ELSE ResolveAtom(u.b)
+           eb == IF u.b = "" THEN 0 ELSE u.eb
+           sc == XMul(R(u.coef), XMul(XPow(a.s, u.ea), XPow(b.s, eb))) IN
        [idx |-> 0, ok |-> a.ok /\ b.ok /\ ~a.off /\ ~b.off /\ u.a # u.b,
-        ex |-> a.ex /\ b.ex /\ ~IsBad(XMul(XPow(a.s, u.ea), XPow(b.s, u.eb))), off |-> FALSE,
-        s |-> IF a.ex /\ b.ex THEN XMul(XPow(a.s, u.ea), XPow(b.s, u.eb)) ELSE ROne,
-        tag |-> a.tag * u.ea + b.tag * u.eb, o |-> RZero,
-        dim |-> DimMul(DimPow(a.dim, u.ea), DimPow(b.dim, u.eb)), atomic |-> FALSE, str |-> "(compound)"]
+        ex |-> a.ex /\ b.ex /\ ~IsBad(sc), off |-> FALSE,
+        s |-> IF a.ex /\ b.ex THEN sc ELSE ROne,
+        tag |-> a.tag * u.ea + b.tag * eb, o |-> RZero,
+        dim |-> DimMul(DimPow(a.dim, u.ea), DimPow(b.dim, eb)), atomic |-> FALSE, str |-> "(compound)"]
 
 (* ---------------- the pool of units of this instance ---------------- *)
 \* Data.pool lists unit specs: the atoms of the instance, then every a**ea * b**eb over the compound atoms and
